@@ -12,7 +12,7 @@ theorem ordStep_ok_mono (st : OrdSt) (op : Op) (h : (ordStep st op).ok = true) :
   cases op <;> simp only [] at h
   all_goals (try (repeat' split at h))
   all_goals (try (simp only [Bool.and_eq_true] at h))
-  all_goals (first | exact h | exact h.1 | exact h.1.1 | exact h.1.1.1 | exact h.1.1.1.1)
+  all_goals (first | exact h | exact h.1 | exact h.1.1 | exact h.1.1.1 | exact h.1.1.1.1 | cases h)
 
 theorem fold_ok_mono (ops : List Op) (st : OrdSt) (h : (ops.foldl ordStep st).ok = true) : st.ok = true := by
   induction ops generalizing st with
@@ -160,7 +160,11 @@ theorem coupled_step (o : OrdSt) (s : PState) (op : Op) (h : Coupled o s) : Coup
       · intro hok; simp only [Bool.and_eq_true] at hok; exact h9 hok.1
     · have hr' : ¬ s.renamed = true := by rw [← h2]; exact hr
       rw [if_neg hr, if_neg hr']
-      exact ⟨h1, h2, h3, h4, h5, h6, h7, h8, h9⟩
+      by_cases ht : inTemp p = true
+      · rw [if_pos ht]
+        exact ⟨h1, h2, h3, h4, h5, h6, h7, h8, h9⟩
+      · rw [if_neg ht]
+        exact ⟨h1, h2, h3, h4, h5, h6, (fun hok => by cases hok), (fun hok => by cases hok), (fun hok => by cases hok)⟩
   | exit status =>
     simp only [ordStep, pstep]
     by_cases hs : status = 0
@@ -229,13 +233,18 @@ theorem fold_openReads (f : String → Path) (bs : List String) (st : OrdSt) :
   | cons p rest ih => simp only [List.map_cons, List.foldl_cons, ordStep]; exact ih st
 
 theorem fold_removes_before (ops : List Op) (st : OrdSt) (hr : st.renamed = false)
-    (hops : ∀ o ∈ ops, ∃ p, o = Op.remove p) : ops.foldl ordStep st = st := by
+    (hops : ∀ o ∈ ops, ∃ p, o = Op.remove p ∧ inTemp p = true) : ops.foldl ordStep st = st := by
   induction ops generalizing st with
   | nil => rfl
   | cons o rest ih =>
-    obtain ⟨p, rfl⟩ := hops o (by simp)
-    simp only [List.foldl_cons, ordStep, hr, Bool.false_eq_true, if_false]
+    obtain ⟨p, rfl, ht⟩ := hops o (by simp)
+    simp only [List.foldl_cons, ordStep, hr, Bool.false_eq_true, if_false, ht, if_true]
     exact ih st hr (fun o ho => hops o (by simp [ho]))
+
+theorem isDot_dot' (a : String) : isDot ("." ++ a) = true := by
+  unfold isDot
+  rw [String.toList_append]
+  rfl
 
 theorem fold_removes_after (ops : List Op) (st : OrdSt) (hr : st.renamed = true) (hd : st.renameDurable = true)
     (hok : st.ok = true) (hops : ∀ o ∈ ops, ∃ p, o = Op.remove p) : ops.foldl ordStep st = st := by
@@ -305,8 +314,8 @@ theorem order_of_finish (sc : Scenario) : orderOk (runOps sc) = true := by
       intro o ho
       simp only [List.mem_flatMap, List.mem_append, List.mem_map, List.mem_singleton] at ho
       obtain ⟨a, _, h | h⟩ := ho
-      · obtain ⟨f, _, rfl⟩ := h; exact ⟨_, rfl⟩
-      · exact ⟨_, h⟩
+      · obtain ⟨f, _, rfl⟩ := h; exact ⟨_, rfl, by simp [inTemp, isDot_dot']⟩
+      · exact ⟨_, h, by simp [inTemp, isDot_dot']⟩
   rw [s1]
   -- temporary directory and the two files
   have hlen : (tmpDir sc).length = 2 := rfl
